@@ -339,3 +339,41 @@ def c31_part(ck):
                          {"world": meta["world"], "nodes": meta["nodes"], "kind": "mapper"})
     ck.extra["mapper_results_with_toll_nodes"] = ntoll
     ck.extra["mapper_results_checked"] = len(verdicts)
+
+
+# ------------------------------------------------------------------ fused (multi-Einsum) trees
+def export_tree(mapping):
+    """Multi-Einsum LoopTree -> node records with branch tags (prefix br=0, branch e = 1..k), or None if the
+    tree has a shape FusedNest does not model (nested splits)."""
+    out = []
+
+    def emit(n, br):
+        k = type(n).__name__
+        if k in ("Storage", "Toll"):
+            for t in n.tensors:
+                out.append({"kind": "S", "mem": str(n.component), "t": str(t), "br": br})
+        elif k == "Temporal":
+            out.append({"kind": "T", "rv": str(n.rank_variable), "tile": int(n.tile_shape), "br": br})
+        elif k == "Compute":
+            out.append({"kind": "C", "einsum": str(n.einsum), "br": br})
+        elif k == "Reservation":
+            pass
+        else:
+            raise ValueError("unsupported node " + k)
+
+    nodes = list(mapping.nodes)
+    for i, n in enumerate(nodes):
+        k = type(n).__name__
+        if k in ("Sequential", "Pipeline", "Parallel"):
+            if i != len(nodes) - 1:
+                return None
+            for b, child in enumerate(n.nodes):
+                sub = list(child.nodes) if hasattr(child, "nodes") else [child]
+                for x in sub:
+                    if hasattr(x, "nodes"):
+                        return None
+                    emit(x, b + 1)
+            return out
+        emit(n, 0)
+    # single Einsum: one branch holding everything below the outermost holders
+    return [dict(x, br=(1 if x["kind"] == "C" else x["br"])) for x in out]
